@@ -86,16 +86,49 @@ func r091(c *Ctx, r *R) {
 	// Expired compares now with the Expire field
 	e := c.fn(r, "api", "Metric.Expired")
 	if e != nil {
+		// now.After(expiry) or expiry.Before(now), with expiry =
+		// time.Unix(0, m.Expire) written in place or in a helper method of
+		// the same metric
+		var isExpiry func(v ssa.Value, fn *ssa.Function, depth int) bool
+		isExpiry = func(v ssa.Value, fn *ssa.Function, depth int) bool {
+			call, _ := originCall(v)
+			if call == nil {
+				return false
+			}
+			if nameMatches(callName(call.Common()), "=time.Unix") {
+				fl, base := fieldLoad(call.Common().Args[1])
+				sec, isK := constInt(call.Common().Args[0])
+				return fl != nil && fl.Name() == "Expire" && isK && sec == 0 && paramIndex(fn, base) == 0
+			}
+			h := call.Common().StaticCallee()
+			if h == nil || depth > 1 || len(h.Blocks) == 0 || !isRepoFn(h) || len(call.Common().Args) == 0 || paramIndex(fn, call.Common().Args[0]) != 0 {
+				return false
+			}
+			n := 0
+			for _, lf := range returnLeaves(h, 0) {
+				n++
+				if !isExpiry(lf.Val, h, depth+1) {
+					return false
+				}
+			}
+			return n > 0
+		}
+		isNow := func(v ssa.Value) bool {
+			call, _ := originCall(v)
+			return call != nil && nameMatches(callName(call.Common()), "=time.Now")
+		}
 		ok := false
 		for _, lf := range returnLeaves(e, 0) {
-			if call, _ := originCall(lf.Val); call != nil && nameMatches(callName(call.Common()), "(time.Time).After") {
-				now, _ := originCall(call.Common().Args[0])
-				exp, _ := originCall(call.Common().Args[1])
-				if now != nil && nameMatches(callName(now.Common()), "time.Now") && exp != nil && nameMatches(callName(exp.Common()), "time.Unix") {
-					if fl, _ := fieldLoad(exp.Common().Args[1]); fl != nil && fl.Name() == "Expire" {
-						ok = true
-					}
-				}
+			call, _ := originCall(lf.Val)
+			if call == nil {
+				continue
+			}
+			x := call.Common().Args
+			switch {
+			case nameMatches(callName(call.Common()), "(time.Time).After") && isNow(x[0]) && isExpiry(x[1], e, 0):
+				ok = true
+			case nameMatches(callName(call.Common()), "(time.Time).Before") && isExpiry(x[0], e, 0) && isNow(x[1]):
+				ok = true
 			}
 		}
 		r.Check(ok, "expired:definition", e.Pos(), "Expired() = now is after the Expire instant", "Metric.Expired is no longer time.Now().After(time.Unix(0, Expire))")
